@@ -7,7 +7,7 @@ from . import common
 from .common import viol
 
 ID = "C16"
-RUNS = {"quick": 1000, "thorough": 30000}
+RUNS = {"quick": 1000, "thorough": 12000}
 REAL = common.REAL
 SIMULATED = common.SIMULATED
 ASSUMPTIONS = [
@@ -50,7 +50,7 @@ def _gen_marathon(rng):
             opl.append({"op": "write_input", "dir": pth[0], "stem": pth[1], "ext": pth[2],
                         "games": rng.sample(range(3), rng.randint(1, 3)), "style": rng.choice(textstyle.STYLES), "seed": rng.randint(0, 999)})
         opl.append({"op": "lib", "dir": pth[0], "stem": pth[1], "ext": pth[2], "save": rng.random() < 0.8})
-    return {"cfg": {"klass": "marathon"}, "pool": pool, "ops": opl}
+    return {"cfg": {"klass": "marathon", "fd_spare": 48}, "pool": pool, "ops": opl}
 
 
 def gen(rng, tier, ctx):
@@ -112,6 +112,12 @@ def gen(rng, tier, ctx):
             continue
         if r < 0.2:
             opl.append(write())
+        elif r < 0.23 and len(paths) >= 1:
+            # the input reached through a symbolic link with a name of its own
+            tgt = rng.choice(paths)
+            lnk = (rng.choice(["inputs", "inputs", "other"]), "".join(rng.choice(STEM_ALPHABET) for _ in range(rng.randint(2, 9))), tgt[2])
+            opl.append({"op": "link_input", "dir": lnk[0], "stem": lnk[1], "ext": lnk[2], "to": list(tgt)})
+            opl.append({"op": "cli", "dir": lnk[0], "stem": lnk[1], "ext": lnk[2], "save": True, "entropy": rng.randint(0, 2 ** 32)})
         elif r < 0.3:
             opl.append({"op": "plant", "stem": pth[1], "kind": rng.choice(["longer", "torn", "garbage"]),
                         "seed": rng.randint(0, 999)})
@@ -306,6 +312,17 @@ def execute(spec, w, ctx):
             nms = [pool[g]["name"] for g in games]
             events.append([i_op, "write_input", rel, nms if len(nms) <= 8 else "%d games" % len(nms), op["style"], h(text)])
             shapes.append("w%d%s" % (len(games), op["style"][0]))
+            continue
+        if kind == "link_input":
+            path, rel = _path(w, op)
+            tpath, trel = _path(w, {"dir": op["to"][0], "stem": op["to"][1], "ext": op["to"][2]})
+            if trel not in files or rel == trel or rel in files:
+                continue
+            w.fs.symlink(rel, trel)
+            files[rel] = files[trel]        # the same text, reached under another name
+            w.fired("symlinked-input")
+            events.append([i_op, "link_input", rel, trel])
+            shapes.append("l")
             continue
         if kind == "tweak_input":
             # an editor changes one digit and saves: same length, and (coarse) within the mtime granularity
